@@ -73,6 +73,9 @@ type Source struct {
 	closed   bool
 	addr     string
 	Default  *Plan // used when the plans are exhausted (nil: refuse)
+	// RequireAuth: commands on a connection that has not authenticated are answered with -NOAUTH
+	// (off by default: component-level checks drive single connections without the AUTH step)
+	RequireAuth bool
 }
 
 func New(password string, plans ...Plan) *Source {
@@ -250,6 +253,7 @@ func (s *Source) serve(c *Conn) {
 	startCh := make(chan []Step, 1)
 	// reader: records commands for the whole life of the connection
 	go func() {
+		authed := false
 		for {
 			argv, err := readCmd(br)
 			if err != nil {
@@ -261,9 +265,27 @@ func (s *Source) serve(c *Conn) {
 			c.mu.Lock()
 			c.Cmds = append(c.Cmds, Recv{Argv: argv, At: time.Now(), StreamSent: c.streamSent})
 			c.mu.Unlock()
-			switch strings.ToLower(argv[0]) {
+			name := strings.ToLower(argv[0])
+			switch name {
+			case "auth", "ping", "replconf", "sync", "psync", "info":
+				if name != "auth" && s.RequireAuth && s.Password != "" && !authed {
+					c.c.Write([]byte("-NOAUTH Authentication required.\r\n"))
+					continue
+				}
+			default:
+				// as Redis >= 5 does: an unknown command is answered, authenticated or not, with an error that echoes its first arguments
+				var b strings.Builder
+				fmt.Fprintf(&b, "-ERR unknown command `%s`, with args beginning with: ", argv[0])
+				for _, a := range argv[1:] {
+					fmt.Fprintf(&b, "`%.128s`, ", a)
+				}
+				c.c.Write([]byte(b.String() + "\r\n"))
+				continue
+			}
+			switch name {
 			case "auth":
 				if s.Password == "" || (len(argv) == 2 && argv[1] == s.Password) {
+					authed = true
 					c.c.Write([]byte("+OK\r\n"))
 				} else {
 					c.c.Write([]byte("-ERR invalid password\r\n"))
